@@ -78,7 +78,12 @@ impl<F> Stream<F> {
 
     fn flush_changes(&mut self) -> io::Result<()> {
         if let Some(flusher) = self.flusher.take() {
-            flusher.flush_changes(self)?;
+            if let Err(err) = flusher.flush_changes(self) {
+                // The buffered data has not (all) reached the file: keep the
+                // buffer marked as modified so that a later flush retries.
+                self.flusher = Some(flusher);
+                return Err(err);
+            }
         }
         Ok(())
     }
